@@ -45,13 +45,62 @@ try:
 except AttributeError:
     pass
 
-re_paramname = re.compile(
-    r'^'
-    r'\s*([^:=]+)'      # param name
-    r'\s*(?::(.+?))?'    # annotation
-    r'\s*(?:=(.+))?'   # default value
-    r'$')
 re_posoarg = re.compile(r'^<(.*)>$')
+
+_brackets = {'(': ')', '[': ']', '{': '}'}
+
+def _split_toplevel(text, separators):
+    """Splits text at the separators that are neither inside brackets nor
+    inside a string literal. Each separator is used at most once, in order;
+    pass a single separator n times to split at all its occurences."""
+    parts = []
+    closing = []
+    quote = None
+    start = 0
+    separators = list(separators)
+    i = 0
+    while i < len(text) and separators:
+        c = text[i]
+        if quote:
+            if c == '\\':
+                i += 1
+            elif text.startswith(quote, i):
+                i += len(quote) - 1
+                quote = None
+        elif c in '"\'':
+            quote = c * 3 if text.startswith(c * 3, i) else c
+            i += len(quote) - 1
+        elif c in _brackets:
+            closing.append(_brackets[c])
+        elif closing:
+            if c == closing[-1]:
+                closing.pop()
+        elif c == separators[0] and not (
+                c == '=' and text[i:i+2] == '=='):
+            parts.append(text[start:i])
+            start = i + 1
+            separators.pop(0)
+        elif c == '=' and text[i:i+2] == '==':
+            i += 1
+        i += 1
+    parts.append(text[start:])
+    return parts
+
+def _read_param(param):
+    """Returns the name, annotation and default value parts of the text of
+    one parameter, None for the parts that are missing."""
+    arg, default = param, None
+    parts = _split_toplevel(param, '=')
+    if len(parts) == 2:
+        arg, default = parts
+    annotation = None
+    parts = _split_toplevel(arg, ':')
+    if len(parts) == 2:
+        arg, annotation = parts
+    return (
+        arg.strip(),
+        annotation.strip() if annotation and annotation.strip() else None,
+        default.strip() if default and default.strip() else None)
 
 def read_sig(sig_str, ret=_util.UNSET, *,
              use_modifiers_annotate=False,
@@ -72,10 +121,11 @@ def read_sig(sig_str, ret=_util.UNSET, *,
     varkwargs = None
     chevron_index = None
     default_index = None
-    for i, param in enumerate(sig_str.split(',')):
+    for i, param in enumerate(
+            _split_toplevel(sig_str, ',' * sig_str.count(','))):
         if not param:
             continue
-        arg, annotation, default = re_paramname.match(param).groups()
+        arg, annotation, default = _read_param(param)
         insert = arg
         is_posoarg = re_posoarg.match(arg)
         if is_posoarg:
@@ -163,7 +213,7 @@ def func_code(names, return_annotation, annotations, posoarg_n,
         code.append(f'@modifiers.annotate({return_annotation})')
     elif annotations:
         annotation_args = ', '.join(
-            f'{key}={value}'.format(key, value)
+            f'{key}={value}'
             for key, value in annotations.items())
         code.append(f'@modifiers.annotate({annotation_args})')
     if posoarg_n:
@@ -251,9 +301,10 @@ def func_from_sig(sig):
         The contents of the arguments are eventually passed to `exec`.
         Do not use with untrusted input.
     """
-    sig_str, sep, ret = str(sig).rpartition(' -> ')
-    if not sep:
-        sig_str, ret = ret, _util.UNSET
+    sig_str = str(sig.replace(return_annotation=sig.empty))
+    ret = _util.UNSET
+    if sig.return_annotation is not sig.empty:
+        ret = str(sig)[len(sig_str + ' -> '):]
     return f(sig_str[1:-1], ret)
 
 def make_up_callsigs(sig, extra=2):
